@@ -1348,3 +1348,562 @@ func ruleR206(c *Ctx) {
 		c.Missing("cohort records", "no FlowTrace arm of the flow tracker that stores into its table was found")
 	}
 }
+
+// ---- R207–R209 (round 9, second half) ----
+
+func init() {
+	register(&Rule{ID: "R207", Title: "timers know one clock: pkg/timer never reads the wall clock or a context's deadline (time.Now / Until / Since, Context.Deadline) — a due time is a time of the injected clock", Min: 0, Run: ruleR207})
+	register(&Rule{ID: "R208", Title: "a read of a variable is a private decode: GetVariable indexes only the table of stored items (no table of already decoded values that several readers would share)", Min: 1, Run: ruleR208})
+	register(&Rule{ID: "R209", Title: "a shape is drawn where the layout put its node: the bounds given to a shape are the node's x, y, width and height as laid out (also through single-assignment locals)", Min: 1, Run: ruleR209})
+}
+
+func ruleR207(c *Ctx) {
+	p := c.P
+	what := "a context deadline is wall-clock time; the due time of a timer is a time of the clock it was given. With a simulated clock that runs ahead (or behind) the two cannot be compared: 'the context expires before the due time' is false, the wake-up is never registered and the timer never fires although its clock reaches the due time"
+	for _, f := range p.Funcs {
+		if f.Body == nil || f.Pkg.PkgPath != pathTimer {
+			continue
+		}
+		in := info(f)
+		inspectNoLit(f.Body, func(m ast.Node) bool {
+			cl, ok := m.(*ast.CallExpr)
+			if !ok {
+				return true
+			}
+			fn := callee(in, cl)
+			if fn == nil || fn.Pkg() == nil {
+				return true
+			}
+			bad := ""
+			if fn.Pkg().Path() == "time" && (fn.Name() == "Now" || fn.Name() == "Until" || fn.Name() == "Since") {
+				bad = "time." + fn.Name()
+			}
+			if fn.Pkg().Path() == "context" && fn.Name() == "Deadline" {
+				bad = "Context.Deadline"
+			}
+			if bad != "" {
+				c.Bad(f, cl, bad+" in "+f.QName(), what, "wall-clock time read in the timer package")
+			}
+			return true
+		})
+	}
+}
+
+func ruleR208(c *Ctx) {
+	p := c.P
+	what := "variables are stored as encoded items and decoded per read, so every reader gets a map or slice of its own. A table of decoded values hands the same map to every reader — and to the engine's own `$ref` resolution: what one reader changes, every later read of the variable shows"
+	n := 0
+	for _, f := range p.Funcs {
+		if f.Body == nil || f.Obj == nil || f.Pkg.PkgPath != pathData || f.Obj.Name() != "GetVariable" || f.Parent != nil {
+			continue
+		}
+		in := info(f)
+		n++
+		var other []string
+		ast.Inspect(f.Body, func(m ast.Node) bool {
+			ix, ok := m.(*ast.IndexExpr)
+			if !ok {
+				return true
+			}
+			fv := fieldOf(in, ix.X)
+			if fv == nil {
+				return true
+			}
+			mp, isMap := fv.Type().Underlying().(*types.Map)
+			if !isMap {
+				return true
+			}
+			if nt := namedOf(mp.Elem()); nt != nil && nt.Obj().Name() == "IItem" {
+				return true
+			}
+			other = append(other, fv.Name()+" ("+typeString(fv.Type())+")")
+			return true
+		})
+		c.Check(len(other) == 0, f, f.Decl, f.QName()+" decodes per read", what, ifElse(len(other) == 0, "only the table of stored items is indexed", "also indexes "+strings.Join(other, ", ")))
+	}
+	if n == 0 {
+		c.Missing("GetVariable", "no GetVariable method was found in pkg/data")
+	}
+}
+
+func ruleR209(c *Ctx) {
+	p := c.P
+	what := "the edges of a diagram are routed on the bounds the layout computed for the nodes. A shape that is drawn with other bounds than its node was laid out with (a sub-process drawn collapsed in an expanded slot) has its edges start and end beside it"
+	n := 0
+	for _, f := range p.Funcs {
+		if f.Body == nil || f.Pkg.PkgPath != pathSchema || f.File == nil || !strings.HasSuffix(p.Fset.Position(f.File.Pos()).Filename, "builder.go") {
+			continue
+		}
+		in := info(f)
+		inspectNoLit(f.Body, func(m ast.Node) bool {
+			cl, ok := m.(*ast.CallExpr)
+			if !ok {
+				return true
+			}
+			se, ok := unparen(cl.Fun).(*ast.SelectorExpr)
+			if !ok || se.Sel.Name != "SetBounds" || len(cl.Args) != 1 {
+				return true
+			}
+			nb, ok := unparen(cl.Args[0]).(*ast.CallExpr)
+			if !ok || len(nb.Args) != 4 {
+				return true
+			}
+			n++
+			want := []string{"x", "y", "width", "height"}
+			var wrong []string
+			var base types.Object
+			for i, a := range nb.Args {
+				e := unparen(a)
+				if id, isId := e.(*ast.Ident); isId {
+					if o := objOf(in, id); o != nil && isLocalVar(f.Root(), o) {
+						defs, _ := localDefs(in, f.Root().Body, o)
+						if len(defs) == 1 {
+							e = unparen(defs[0])
+						} else {
+							wrong = append(wrong, fmt.Sprintf("%s (assigned %d times)", id.Name, len(defs)))
+							continue
+						}
+					}
+				}
+				fv := fieldOf(in, e)
+				if fv == nil || fv.Name() != want[i] {
+					wrong = append(wrong, exprString(a))
+					continue
+				}
+				if r := rootIdent(e); r != nil {
+					if base == nil {
+						base = objOf(in, r)
+					} else if objOf(in, r) != base {
+						wrong = append(wrong, exprString(a)+" (another node)")
+					}
+				}
+			}
+			c.Check(len(wrong) == 0, f, cl, "bounds of a shape in "+f.QName(), what, ifElse(len(wrong) == 0, "x, y, width, height of the laid-out node", fmt.Sprintf("not the node's laid-out value: %v", wrong)))
+			return true
+		})
+	}
+	if n == 0 {
+		c.Missing("shape bounds", "no SetBounds(newBounds(...)) was found in schema/builder.go")
+	}
+}
+
+// ---- R210–R212 (round 9, second half) ----
+
+func init() {
+	register(&Rule{ID: "R210", Title: "geometry is written as computed: the constructors of points and bounds in the builder hand their coordinate parameters to the setters verbatim", Min: 6, Run: ruleR210})
+	register(&Rule{ID: "R211", Title: "a fallback id carries its generator's own prefix: what (*fallbackGenerator).New returns is a concatenation in which a string field of the generator is an operand", Min: 1, Run: ruleR211})
+	register(&Rule{ID: "R212", Title: "one lock, one generator: every SnoGenerator is built on a sno generator made for it in the same call, never on one kept in a field and shared by several handles (each handle has a mutex of its own)", Min: 1, Run: ruleR212})
+}
+
+func ruleR210(c *Ctx) {
+	p := c.P
+	what := "way points are computed from the exact borders of the shapes; rounded 'to whole pixels' while the bounds stay exact, an edge on a fractional grid ends up to half a pixel beside the shape it is meant to touch"
+	n := 0
+	for _, f := range p.Funcs {
+		if f.Body == nil || f.Obj == nil || f.Pkg.PkgPath != pathSchema || f.File == nil || !strings.HasSuffix(p.Fset.Position(f.File.Pos()).Filename, "builder.go") {
+			continue
+		}
+		sig := f.Obj.Type().(*types.Signature)
+		params := map[types.Object]bool{}
+		for i := 0; i < sig.Params().Len(); i++ {
+			if b, ok := sig.Params().At(i).Type().Underlying().(*types.Basic); ok && b.Info()&types.IsFloat != 0 {
+				params[sig.Params().At(i)] = true
+			}
+		}
+		if len(params) == 0 {
+			continue
+		}
+		in := info(f)
+		inspectNoLit(f.Body, func(m ast.Node) bool {
+			cl, ok := m.(*ast.CallExpr)
+			if !ok || len(cl.Args) != 1 {
+				return true
+			}
+			se, ok := unparen(cl.Fun).(*ast.SelectorExpr)
+			if !ok {
+				return true
+			}
+			switch se.Sel.Name {
+			case "SetX", "SetY", "SetWidth", "SetHeight":
+			default:
+				return true
+			}
+			// only where a parameter is involved at all
+			uses := mentionsDeep(cl.Args[0], func(z ast.Node) bool { id, ok := z.(*ast.Ident); return ok && params[objOf(in, id)] })
+			if !uses {
+				return true
+			}
+			n++
+			id, isId := unparen(cl.Args[0]).(*ast.Ident)
+			verbatim := isId && params[objOf(in, id)]
+			c.Check(verbatim, f, cl, se.Sel.Name+" in "+f.QName(), what, ifElse(verbatim, "the parameter itself", "derived: "+exprString(cl.Args[0])))
+			return true
+		})
+	}
+	if n == 0 {
+		c.Missing("geometry constructors", "no setter call with a coordinate parameter was found in schema/builder.go")
+	}
+}
+
+func ruleR211(c *Ctx) {
+	p := c.P
+	what := "fallback generators are told apart by their prefix, the ids of one generator by its counter: two fields side by side cannot collide. Packed into one number (generator number times a block size plus the counter), the counter runs into the next generator's block after 65536 draws and the two generators issue the same ids"
+	n := 0
+	for _, f := range p.Funcs {
+		if f.Body == nil || f.Obj == nil || f.Pkg.PkgPath != pathID || f.Obj.Name() != "New" {
+			continue
+		}
+		rn := recvNamed(f.Obj)
+		if rn == nil || !strings.Contains(strings.ToLower(rn.Obj().Name()), "fallback") {
+			continue
+		}
+		in := info(f)
+		n++
+		found := false
+		inspectNoLit(f.Body, func(m ast.Node) bool {
+			rs, ok := m.(*ast.ReturnStmt)
+			if !ok {
+				return true
+			}
+			for _, r := range rs.Results {
+				// a string concatenation with a string field of the receiver as an operand
+				var walk func(e ast.Expr)
+				walk = func(e ast.Expr) {
+					e = unparen(e)
+					if be, ok := e.(*ast.BinaryExpr); ok && be.Op == token.ADD {
+						walk(be.X)
+						walk(be.Y)
+						return
+					}
+					if fv := fieldOf(in, e); fv != nil {
+						if b, ok := fv.Type().Underlying().(*types.Basic); ok && b.Info()&types.IsString != 0 {
+							found = true
+						}
+					}
+				}
+				ast.Inspect(r, func(z ast.Node) bool {
+					if be, ok := z.(*ast.BinaryExpr); ok && be.Op == token.ADD {
+						if t := in.TypeOf(be); t != nil {
+							if b, ok := t.Underlying().(*types.Basic); ok && b.Info()&types.IsString != 0 {
+								walk(be)
+							}
+						}
+					}
+					return true
+				})
+			}
+			return true
+		})
+		c.Check(found, f, f.Decl, f.QName()+" joins prefix and counter", what, ifElse(found, "a string field of the generator is an operand of the returned concatenation", "no string field of the generator appears in the returned id"))
+	}
+	if n == 0 {
+		c.Missing("fallback generator", "no New method of a fallback generator was found in pkg/id")
+	}
+}
+
+func ruleR212(c *Ctx) {
+	p := c.P
+	what := "sno hands out duplicates when two goroutines draw at the same moment, so every SnoGenerator serialises its draws with its own mutex. That only works while a sno generator has exactly one handle: several handles over one shared generator each lock their own mutex and draw concurrently — and a generator restored from a snapshot shares the partition of all of them"
+	n := 0
+	for _, f := range p.Funcs {
+		if f.Body == nil || f.Pkg.PkgPath != pathID {
+			continue
+		}
+		in := info(f)
+		inspectNoLit(f.Body, func(m ast.Node) bool {
+			lit, ok := m.(*ast.CompositeLit)
+			if !ok || !isNamed(in.TypeOf(lit), pathID, "SnoGenerator") {
+				return true
+			}
+			for _, el := range lit.Elts {
+				kv, ok := el.(*ast.KeyValueExpr)
+				if !ok {
+					continue
+				}
+				t := in.TypeOf(kv.Value)
+				pt, isPtr := t.(*types.Pointer)
+				if !isPtr {
+					continue
+				}
+				nt := namedOf(pt.Elem())
+				if nt == nil || nt.Obj().Name() != "Generator" || nt.Obj().Pkg() == nil || !strings.HasSuffix(nt.Obj().Pkg().Path(), "sno") {
+					continue
+				}
+				n++
+				fresh, how := false, exprString(kv.Value)
+				if id, isId := unparen(kv.Value).(*ast.Ident); isId {
+					if o := objOf(in, id); o != nil && isLocalVar(f.Root(), o) {
+						defs, _ := localDefs(in, f.Root().Body, o)
+						fresh = len(defs) > 0
+						for _, d := range defs {
+							cl, isCall := unparen(d).(*ast.CallExpr)
+							if !isCall {
+								fresh = false
+								continue
+							}
+							fn := callee(in, cl)
+							ok := fn != nil && fn.Pkg() != nil && strings.HasSuffix(fn.Pkg().Path(), "sno") && fn.Name() == "NewGenerator"
+							if !ok {
+								if cf := p.byObj[fn]; cf != nil && cf.Pkg == f.Pkg && cf.Body != nil {
+									// a helper of the package that makes the generator itself
+									cin := info(cf)
+									inspectNoLit(cf.Body, func(z ast.Node) bool {
+										if c2, isC := z.(*ast.CallExpr); isC {
+											if f2 := callee(cin, c2); f2 != nil && f2.Pkg() != nil && strings.HasSuffix(f2.Pkg().Path(), "sno") && f2.Name() == "NewGenerator" {
+												ok = true
+											}
+										}
+										return true
+									})
+								}
+							}
+							if !ok {
+								fresh = false
+							}
+						}
+						how = id.Name + " (a local)"
+					}
+				}
+				c.Check(fresh, f, lit, "sno generator under a SnoGenerator in "+f.QName(), what, ifElse(fresh, how+" is made by sno.NewGenerator in this call", how+" is not a generator made for this handle"))
+			}
+			return true
+		})
+	}
+	if n == 0 {
+		c.Missing("SnoGenerator construction", "no SnoGenerator literal was found in pkg/id")
+	}
+}
+
+// ---- R213–R216 (round 9, second half) ----
+
+func init() {
+	register(&Rule{ID: "R213", Title: "nothing is sent after the handle is given back: in a function that defers the release of its sender handle no trace send is deferred before it (deferred calls run in reverse order)", Min: 10, Run: ruleR213})
+	register(&Rule{ID: "R214", Title: "node loops live as long as the instance: the context handed to the calls that start node loops (Trigger, startAll, startWith) is a context parameter, never a context the engine derives and cancels itself", Min: 4, Run: ruleR214})
+	register(&Rule{ID: "R215", Title: "a woken catch event is handed every event it waits for: the loops of the process set that deliver one event per event definition run to their end", Min: 2, Run: ruleR215})
+	register(&Rule{ID: "R216", Title: "an event is credited to one chain: in a satisfier's fitting loop every path from the Set of the bit leaves the loop before the next chain is looked at", Min: 2, Run: ruleR216})
+}
+
+func ruleR213(c *Ctx) {
+	p := c.P
+	what := "the tracer terminates once every registered sender has called Done; a Send after that finds nobody receiving and blocks for ever. `defer tracer.Send(...)` written above `defer sender.Done()` runs after it: in a few per cent of the cancellations the node's goroutine is left parked in that send"
+	n := 0
+	for _, f := range p.Funcs {
+		if f.Body == nil || !isTargetPkg(p, f.Pkg.PkgPath) {
+			continue
+		}
+		in := info(f)
+		var done *ast.DeferStmt
+		var sends []*ast.DeferStmt
+		inspectNoLit(f.Body, func(m ast.Node) bool {
+			d, ok := m.(*ast.DeferStmt)
+			if !ok {
+				return true
+			}
+			if isSenderDone(in, d.Call) {
+				if done == nil {
+					done = d
+				}
+				return true
+			}
+			if isTracerMethod(in, d.Call, "Send") {
+				sends = append(sends, d)
+			}
+			return true
+		})
+		if done == nil {
+			continue
+		}
+		n++
+		var early *ast.DeferStmt
+		for _, s := range sends {
+			if s.Pos() < done.Pos() {
+				early = s
+			}
+		}
+		wit := "no trace send is deferred before it"
+		if early != nil {
+			wit = "a Send deferred earlier (it runs later) at " + c.pos(early)
+		}
+		c.Check(early == nil, f, done, "deferred release of the sender handle in "+f.QName(), what, wit)
+	}
+	if n == 0 {
+		c.Missing("deferred releases", "no function that defers the release of a sender handle was found")
+	}
+}
+
+func ruleR214(c *Ctx) {
+	p := c.P
+	what := "a node's loop is started once, by whoever reaches the node first, and serves every later token and every event handed to the instance. Started under a context that the engine cancels when 'this activation is over', the loops exit while the nodes stay registered as event consumers: the next events pile up in mailboxes nobody drains and the publisher blocks"
+	n := 0
+	for _, f := range p.Funcs {
+		if f.Body == nil || f.Pkg.PkgPath != pathBpmn {
+			continue
+		}
+		in := info(f)
+		inspectNoLit(f.Body, func(m ast.Node) bool {
+			cl, ok := m.(*ast.CallExpr)
+			if !ok || len(cl.Args) == 0 {
+				return true
+			}
+			fn := callee(in, cl)
+			if fn == nil || fn.Pkg() == nil || fn.Pkg().Path() != pathBpmn {
+				return true
+			}
+			switch fn.Name() {
+			case "Trigger", "startAll", "startWith", "StartAll", "StartWith":
+			default:
+				return true
+			}
+			if !isNamed(in.TypeOf(cl.Args[0]), "context", "Context") {
+				return true
+			}
+			n++
+			good, wit := false, exprString(cl.Args[0])+" is not a context parameter"
+			if id, isId := unparen(cl.Args[0]).(*ast.Ident); isId {
+				if v, isVar := objOf(in, id).(*types.Var); isVar {
+					for cur := f; cur != nil; cur = cur.Parent {
+						if isParam(cur, v) {
+							good, wit = true, id.Name+" is a parameter of "+cur.QName()
+						}
+					}
+					if !good {
+						defs, _ := localDefs(in, f.Root().Body, v)
+						for _, d := range defs {
+							if dc, ok := unparen(d).(*ast.CallExpr); ok {
+								if dfn := callee(in, dc); dfn != nil && dfn.Pkg() != nil && dfn.Pkg().Path() == "context" {
+									wit = id.Name + " is derived with context." + dfn.Name()
+								}
+							}
+						}
+					}
+				}
+			}
+			c.Check(good, f, cl, "context of "+exprString(cl.Fun), what, wit)
+			return true
+		})
+	}
+	if n == 0 {
+		c.Missing("loop starters", "no call of Trigger / startAll / startWith with a context was found")
+	}
+}
+
+func ruleR215(c *Ctx) {
+	p := c.P
+	what := "a message flow into a parallel-multiple catch event stands for all the events that catch event waits for; handed only the first, the catch event never fires, its process never ends and the set never completes"
+	n := 0
+	for _, f := range p.Funcs {
+		if f.Body == nil || f.Pkg.PkgPath != pathBpmn {
+			continue
+		}
+		r := f.Root()
+		if r.Obj == nil || recvNamed(r.Obj) == nil || recvNamed(r.Obj).Obj().Name() != "ProcessSet" {
+			continue
+		}
+		in := info(f)
+		inspectNoLit(f.Body, func(m ast.Node) bool {
+			rs, ok := m.(*ast.RangeStmt)
+			if !ok {
+				return true
+			}
+			fv := fieldOf(in, rs.X)
+			if fv == nil || !strings.Contains(fv.Name(), "EventDefinition") {
+				return true
+			}
+			delivers := false
+			var leaves ast.Node
+			inspectNoLit(rs.Body, func(z ast.Node) bool {
+				switch x := z.(type) {
+				case *ast.CallExpr:
+					if fn := callee(in, x); fn != nil && fn.Name() == "ConsumeEvent" {
+						delivers = true
+					}
+				case *ast.ReturnStmt:
+					leaves = x
+				case *ast.BranchStmt:
+					if x.Tok == token.BREAK || x.Tok == token.GOTO {
+						leaves = x
+					}
+				}
+				return true
+			})
+			if !delivers {
+				return true
+			}
+			n++
+			wit := "runs over every definition"
+			if leaves != nil {
+				wit = "left early at " + c.pos(leaves)
+			}
+			c.Check(leaves == nil, f, rs, "delivery loop over "+fv.Name(), what, wit)
+			return true
+		})
+	}
+	if n == 0 {
+		c.Missing("delivery loops", "no loop of the process set that delivers one event per definition was found")
+	}
+}
+
+func ruleR216(c *Ctx) {
+	p := c.P
+	what := "one occurrence of a definition fills one open set. A scan that goes on after it has set the bit in a chain sets it in every later chain that lacks it as well: with three definitions and two open sets, A,A,B,C,C fires twice although B was matched once"
+	n := 0
+	for _, f := range p.Funcs {
+		if f.Body == nil || f.Obj == nil || f.Pkg.PkgPath != pathLogic || f.Obj.Name() != "Satisfy" {
+			continue
+		}
+		in := info(f)
+		g := p.Graph(f)
+		inspectNoLit(f.Body, func(m ast.Node) bool {
+			var body *ast.BlockStmt
+			switch x := m.(type) {
+			case *ast.RangeStmt:
+				body = x.Body
+			case *ast.ForStmt:
+				body = x.Body
+			}
+			if body == nil {
+				return true
+			}
+			// the Set call on an element of a chain list inside this loop (not in a nested loop)
+			var set *ast.CallExpr
+			inspectNoLit(body, func(z ast.Node) bool {
+				if cl, ok := z.(*ast.CallExpr); ok {
+					if se, ok := unparen(cl.Fun).(*ast.SelectorExpr); ok && se.Sel.Name == "Set" {
+						if ix, ok := unparen(se.X).(*ast.IndexExpr); ok && fieldOf(in, ix.X) != nil {
+							if innermostLoop(p, cl) == m {
+								set = cl
+							}
+						}
+					}
+				}
+				return true
+			})
+			if set == nil {
+				return true
+			}
+			pt, ok := g.PointOf(set)
+			if !ok {
+				return true
+			}
+			n++
+			bad := g.RegionPaths(pt, regionOf(body), func(z ast.Node) bool {
+				switch x := z.(type) {
+				case *ast.ReturnStmt:
+					return true
+				case *ast.BranchStmt:
+					return x.Tok == token.BREAK || x.Tok == token.GOTO
+				}
+				return false
+			})
+			wit := "every path from the Set leaves the loop"
+			if len(bad) > 0 {
+				wit = "a path goes on to the next chain: " + witnessLines(g, bad[:1])
+			}
+			c.Check(len(bad) == 0, f, set, "fitting loop of "+f.QName(), what, wit)
+			return true
+		})
+	}
+	if n == 0 {
+		c.Missing("fitting loops", "no loop in a Satisfy method that sets a bit of a chain was found")
+	}
+}
